@@ -8,7 +8,7 @@ From Coq Require Import QArith Qcanon.
 From SV Require Import Base.Ops Base.Arr Model.Vec3 Model.Scene Model.Visibility Model.Tiling Model.Full
   Spec.VisibilitySpec Proofs.VisibilityScan Proofs.VisibilitySym Proofs.VisibilitySegment
   Proofs.PipRect Proofs.PipRectSurface Proofs.PipGeneral Proofs.PipTriangle
-  Proofs.TilingProofs Proofs.FullProofs Proofs.FullVisibility
+  Proofs.TilingProofs Proofs.FullProofs Proofs.FullVisibility Proofs.FullShoebox
   Instances.VisibilityQc Instances.PipRectQc.
 Close Scope Qc_scope.
 Close Scope Q_scope.
@@ -437,3 +437,98 @@ Theorem C07_room_coplanar_hidden {T} {O : Ops T} {RL : RingLaws T} {OL : OrderLa
   vis_sym (room_scene rm) i j = false.
 Proof. exact (fun Hrs He He1 Heta Hm => room_coplanar_hidden rm rs Hrs m He He1 Heta Hm i j). Qed.
 Print Assumptions C07_room_coplanar_hidden.
+
+(** (10f) GENUINE SHOEBOX ROOMS: general position is a theorem, visibility in closed form.
+    [is_shoebox rm x0 x1 y0 y1 z0 z1] is, literally, the room of
+    [sp.testing.shoebox_room_stub] (there x0 = y0 = z0 = 0): the six walls of the box in the stub's
+    order and vertex order, inward unit normals, the stub's up vectors, x0 < x1 etc., and a
+    positive patch size not larger than any side of the box ... *)
+Theorem C07_is_shoebox_unfold {T} {O : Ops T} (rm : @room T) (x0 x1 y0 y1 z0 z1 : T) :
+  is_shoebox rm x0 x1 y0 y1 z0 z1 <->
+  rm_walls rm =
+    [ mkQuad (mkv x0 y0 z0) (mkv x1 y0 z0) (mkv x1 y0 z1) (mkv x0 y0 z1);
+      mkQuad (mkv x0 y1 z0) (mkv x1 y1 z0) (mkv x1 y1 z1) (mkv x0 y1 z1);
+      mkQuad (mkv x0 y0 z0) (mkv x1 y0 z0) (mkv x1 y1 z0) (mkv x0 y1 z0);
+      mkQuad (mkv x0 y0 z1) (mkv x1 y0 z1) (mkv x1 y1 z1) (mkv x0 y1 z1);
+      mkQuad (mkv x0 y0 z0) (mkv x0 y0 z1) (mkv x0 y1 z1) (mkv x0 y1 z0);
+      mkQuad (mkv x1 y0 z0) (mkv x1 y0 z1) (mkv x1 y1 z1) (mkv x1 y1 z0) ] /\
+  rm_normals rm =
+    [ mkv 0 1 0; mkv 0 (- (1)) 0; mkv 0 0 1; mkv 0 0 (- (1)); mkv 1 0 0; mkv (- (1)) 0 0 ]%T /\
+  rm_ups rm = [ mkv 1 0 0; mkv 1 0 0; mkv 1 0 0; mkv 1 0 0; mkv 0 0 1; mkv 0 0 1 ]%T /\
+  (x0 < x1)%T /\ (y0 < y1)%T /\ (z0 < z1)%T /\ (0 < rm_patch_size rm)%T /\
+  (rm_patch_size rm <= x1 - x0)%T /\ (rm_patch_size rm <= y1 - y0)%T /\ (rm_patch_size rm <= z1 - z0)%T.
+Proof. exact (iff_refl _). Qed.
+Print Assumptions C07_is_shoebox_unfold.
+
+(** ... and [sb_tolerances rm]: the tolerances of the code are small against the patch size
+    (epsilon = eta = 1e-6 in /repo: any patch size above 2 micrometres).  Every cell side is at
+    least the patch size, so a centroid is more than eps and eta away from every grid line and
+    every other wall plane. *)
+Theorem C07_sb_tolerances_unfold {T} {O : Ops T} (rm : @room T) :
+  sb_tolerances rm <->
+  (0 <= rm_eps rm)%T /\ (rm_eps rm < 1)%T /\ (0 < rm_eta rm)%T /\
+  (rm_eps rm + rm_eps rm < rm_patch_size rm)%T /\ (rm_eta rm + rm_eta rm < rm_patch_size rm)%T.
+Proof. exact (iff_refl _). Qed.
+Print Assumptions C07_sb_tolerances_unfold.
+
+(** A shoebox room is a room with axis-aligned rectangular walls ([axis_walls], the hypothesis of
+    (10c)), with at least one patch per wall ... *)
+Theorem C07_shoebox_axis_walls {T} {O : Ops T} {RL : RingLaws T} {OL : OrderLaws T} {FL : FieldLaws T}
+    {FlL : FloorLaws T} {SL : SqrtLaws T} (rm : @room T) (x0 x1 y0 y1 z0 z1 : T) :
+  is_shoebox rm x0 x1 y0 y1 z0 z1 -> axis_walls rm /\ 6 <= rm_np rm.
+Proof.
+  exact (fun H => conj (shoebox_axis_walls rm x0 x1 y0 y1 z0 z1 H) (shoebox_np_ge_6 rm x0 x1 y0 y1 z0 z1 H)).
+Qed.
+Print Assumptions C07_shoebox_axis_walls.
+
+(** ... and the hypothesis [gen_pos] of [C07_room_visibility_geometric] holds for EVERY pair of
+    patch centroids and EVERY patch rectangle (margin m with 2 m < patch size): a centroid lies in
+    the plane of the cells of its own wall, at least half a cell from each of their edge lines
+    (grid lines at lo + k s, centroids at lo + (k + 1/2) s), and strictly on the inner side of the
+    five other wall planes, at least half a cell away; the open segment between two such points
+    never meets a wall plane. *)
+Theorem C07_shoebox_general_position {T} {O : Ops T} {RL : RingLaws T} {OL : OrderLaws T}
+    {FL : FieldLaws T} {FlL : FloorLaws T} {SL : SqrtLaws T}
+    (rm : @room T) (x0 x1 y0 y1 z0 z1 m : T) :
+  is_shoebox rm x0 x1 y0 y1 z0 z1 ->
+  (0 < rm_eta rm)%T ->
+  (rm_eps rm + rm_eps rm < rm_patch_size rm)%T -> (rm_eta rm + rm_eta rm < rm_patch_size rm)%T ->
+  (m + m < rm_patch_size rm)%T ->
+  exists rs, rects_of (rm_patch_surfs rm) rs /\
+    forall i j, i < rm_np rm -> j < rm_np rm ->
+      forall r, In r rs ->
+        gen_pos (rm_eps rm) (rm_eta rm) m r (nthv (rm_centers rm) i) (nthv (rm_centers rm) j).
+Proof. exact (shoebox_general_position rm x0 x1 y0 y1 z0 z1 m). Qed.
+Print Assumptions C07_shoebox_general_position.
+
+(** CLOSED FORM: in a shoebox room two patches exchange energy iff they lie on different walls
+    (same wall: the coplanar branch; different walls: no patch rectangle meets the open segment
+    or has a centroid behind it). *)
+Theorem C07_shoebox_visibility {T} {O : Ops T} {RL : RingLaws T} {OL : OrderLaws T}
+    {FL : FieldLaws T} {FlL : FloorLaws T} {SL : SqrtLaws T}
+    (rm : @room T) (x0 x1 y0 y1 z0 z1 : T) :
+  is_shoebox rm x0 x1 y0 y1 z0 z1 -> sb_tolerances rm ->
+  forall i j, i < j -> j < rm_np rm ->
+    (vis_sym (room_scene rm) i j = true <-> wall (room_scene rm) i <> wall (room_scene rm) j).
+Proof. exact (shoebox_visibility rm x0 x1 y0 y1 z0 z1). Qed.
+Print Assumptions C07_shoebox_visibility.
+
+(** POINT VISIBILITY: from a point strictly inside the box -- farther than eps and eta from each of
+    the six wall planes: [wside f s pos] is the inward distance from the wall at the lower
+    (s = true) / upper (s = false) end of axis f -- every patch is visible
+    ([_check_point2patch_visibility] with the six WALL polygons as blockers). *)
+Theorem C07_shoebox_point_visibility {T} {O : Ops T} {RL : RingLaws T} {OL : OrderLaws T}
+    {FL : FieldLaws T} {FlL : FloorLaws T} {SL : SqrtLaws T}
+    (rm : @room T) (x0 x1 y0 y1 z0 z1 : T) (pos : @vec T) :
+  is_shoebox rm x0 x1 y0 y1 z0 z1 -> sb_tolerances rm ->
+  (forall f s, f < 3 ->
+     (rm_eps rm < (if s : bool then vget pos f - sb_lo x0 y0 z0 f else sb_hi x1 y1 z1 f - vget pos f))%T /\
+     (rm_eta rm < (if s : bool then vget pos f - sb_lo x0 y0 z0 f else sb_hi x1 y1 z1 f - vget pos f))%T) ->
+  (forall k, k < rm_np rm -> nthb (room_point_vis rm pos) k = true) /\
+  room_point_vis rm pos = repeat true (rm_np rm).
+Proof.
+  exact (fun Hsb Htol Hpos =>
+           conj (shoebox_point_visibility rm x0 x1 y0 y1 z0 z1 pos Hsb Htol Hpos)
+                (shoebox_point_visibility_all rm x0 x1 y0 y1 z0 z1 pos Hsb Htol Hpos)).
+Qed.
+Print Assumptions C07_shoebox_point_visibility.
